@@ -554,7 +554,7 @@ def _one_path(interp, c, fn, shape, ctx, clauses, stats):
                 i1 = next((i for i, a in enumerate(args1) if a is v1), -1)
                 i2 = next((i for i, a in enumerate(args2) if a is v2), -1)
                 goals.add('result:identity', i1 == i2)
-        if c.observe_args:
+        if c.observe_args and not (c.observe_args == 'on_return' and out1.kind == 'exc' and out2.kind == 'exc'):
             for (l1, a1), (l2, a2) in zip(_observe_args(args1, kw1), _observe_args(args2, kw2)):
                 same(a1, a2, 'state:' + l1, goals)
     else:
